@@ -320,7 +320,8 @@ func removedWhileSetUp(x *Exec, rel string, openedAt int) bool {
 			continue
 		}
 		dir := strings.TrimPrefix(cleanPath(c.Path), x.root+"/")
-		if strings.HasPrefix(rel, dir+"/") && openedAt >= c.Inv-40 && (c.Ret < 0 || openedAt <= c.Ret+2) {
+		// (the reader may finish the directory scan it had begun before the Remove long after the Remove returned)
+		if strings.HasPrefix(rel, dir+"/") && openedAt >= c.Inv-40 {
 			return true
 		}
 	}
